@@ -603,4 +603,34 @@ example : ¬ NoTie tieC [0, 1, 2] "x" := tie_violates_NoTie.2.1
 
 end FullAgreement
 
+/-! ### LocalState lists exactly the left members as left
+
+Push/pull turns a LeftMembers entry into a leave intent at StatusLTimes+1 and every other entry into a
+join intent.  So the sender must list in LeftMembers exactly the members it holds as `left`: a `leaving`
+member (mid-leave, or wrongly claimed) listed there makes the receiver invent a leave at L+1 — which ties
+with the refuting join of a running member (seeded change C02-e). -/
+
+section LocalStateExact
+open SerfModel.Cluster
+
+theorem C02_localstate_left_exact (n : Node) (h : BookInv n) (x : Name) :
+    x ∈ (localState n).2.2 ↔ statusOf n x = some .left := by
+  simpa [localState] using h.leftIff x
+
+theorem C02_localstate_left_exact_reachable (name : Name) (cfg : Config) (ops : List Op) (x : Name) :
+    x ∈ (localState (run (Node.init name cfg) ops)).2.2 ↔ statusOf (run (Node.init name cfg) ops) x = some .left :=
+  C02_localstate_left_exact _ (SerfProofs.NodeBook.inv_run ops _ (SerfProofs.NodeBook.inv_init name cfg)) x
+
+/-- the broken shape: the sender also lists its `leaving` member "x" (time 5) as left; the fresh peer turns the
+alive "x" into leaving at 6, and the refuting join of "x" at 6 is then ignored -/
+theorem C02_localstate_leaving_as_left_counterexample :
+    let a := run (Node.init "a" {}) [.nodeJoin "x", .leaveMsg "x" 5 false 0]
+    let p := (step (Node.init "p" {}) (.nodeJoin "x")).1
+    -- faithful push/pull: join intent at 5
+    statusOf (step p (.merge (localState a).1 (localState a).2.1 (localState a).2.2 0)).1 "x" = some .alive ∧
+    -- C02-e: "x" added to the left list
+    statusOf (run p [.merge (localState a).1 (localState a).2.1 ["x"] 0, .joinMsg "x" 6 0]) "x" = some .leaving := by
+  decide
+end LocalStateExact
+
 end SerfProofs.C02
